@@ -418,16 +418,29 @@ func init() {
 				rep.violation(map[string]any{"key": ks[i].id.String()}, "the key", fmt.Sprint(err), "ToPubKey(String()) does not give the key back")
 			}
 		}
-		// a secp256k1 key held as a generic ECDSA key must get the same DID
-		if k, ok := kr["secp256k1/1"]; ok {
+		// a secp256k1 key held as a generic ECDSA key must get the same DID (16 keys: both parities of X and Y occur)
+		for n := 1; n <= 16; n++ {
+			k, err := kr.get("secp256k1", n)
+			if err != nil {
+				return err
+			}
 			x, y, _, err := ecPoint(k)
-			if err == nil {
-				ec := &ecdsa.PublicKey{Curve: secp256k1.S256(), X: x, Y: y}
-				if pk, err := crypto.ECDSAPublicKeyFromPubKey(*ec); err == nil {
-					if d2, err := did.FromPubKey(pk); err != nil || d2 != k.id {
-						rep.violation(map[string]any{"key": k.id.String()}, k.id.String(), fmt.Sprint(d2, err), "the same secp256k1 point held as an ECDSA key gets another DID")
-					}
-				}
+			if err != nil {
+				continue
+			}
+			ec := &ecdsa.PublicKey{Curve: secp256k1.S256(), X: x, Y: y}
+			pk, err := crypto.ECDSAPublicKeyFromPubKey(*ec)
+			if err != nil {
+				continue
+			}
+			rep.Evaluations++
+			d2, err := did.FromPubKey(pk)
+			if err != nil || d2 != k.id {
+				rep.violation(map[string]any{"key": k.id.String()}, k.id.String(), fmt.Sprint(d2, err), "the same secp256k1 point held as an ECDSA key gets another DID")
+				continue
+			}
+			if back, err := d2.PubKey(); err != nil || !back.Equals(k.pub) {
+				rep.violation(map[string]any{"key": k.id.String()}, "the key", fmt.Sprint(err), "the DID of a secp256k1 point held as an ECDSA key does not give the key back")
 			}
 		}
 		rep.Extra["injectivity_pairs"] = pairs
